@@ -475,13 +475,37 @@ pub enum Numeric {
   FLOAT(f64),
 }
 
+/// Writes a float so that it reads back as the same float literal: always with
+/// a fraction or an exponent (`1.0`, `1e300`), never as a bare integer.
+pub(crate) fn fmt_float_literal(f: &mut fmt::Formatter, value: f64) -> fmt::Result {
+  write!(f, "{:?}", value)
+}
+
+/// Writes a text literal with the characters that cannot appear raw between the
+/// quotes (`"`, `\` and control characters) escaped.
+pub(crate) fn fmt_text_literal(f: &mut fmt::Formatter, text: &str) -> fmt::Result {
+  f.write_str("\"")?;
+  for c in text.chars() {
+    match c {
+      '"' => f.write_str("\\\"")?,
+      '\\' => f.write_str("\\\\")?,
+      '\n' => f.write_str("\\n")?,
+      '\r' => f.write_str("\\r")?,
+      '\t' => f.write_str("\\t")?,
+      c if (c as u32) < 0x20 || c as u32 == 0x7f => write!(f, "\\u{:04x}", c as u32)?,
+      c => fmt::Write::write_char(f, c)?,
+    }
+  }
+  f.write_str("\"")
+}
+
 impl fmt::Display for Value<'_> {
   fn fmt(&self, f: &mut fmt::Formatter) -> fmt::Result {
     match self {
-      Value::TEXT(text) => write!(f, "\"{}\"", text),
+      Value::TEXT(text) => fmt_text_literal(f, text),
       Value::INT(i) => write!(f, "{}", i),
       Value::UINT(ui) => write!(f, "{}", ui),
-      Value::FLOAT(float) => write!(f, "{}", float),
+      Value::FLOAT(float) => fmt_float_literal(f, *float),
       Value::BYTE(bv) => write!(f, "{}", bv),
     }
   }
